@@ -1,15 +1,16 @@
 (* requests:
    RUN <keepalive> <linger> <tok> <tok> ...
-     tokens:  D<items>   items: h<c><b> (head, close 0|1, body-open 0|1) | e (body end) | x (error), joined by ','  ; "D-" = no item
+     tokens:  D<items>   items: h<c><b> (head, close 0|1, body-open 0|1) | e (body end) | x (error) | X (error that stays in the tail), joined by ','  ; "D-" = no item
               S          handler starts a streamed response
               F<o>       handler ends: r<keep><status> | s | h<status> | e | t | c | w
+              R          body read -> data_received(b"")       W   lingering readany() returned
               T<dt>      clock
               P          peer closes
               |          snapshot
      answer: snapshots separated by " | "; a disabled event ends the answer with NONE@<index of token>
    CONSTS -> "max=<n> resume=<n>" *)
 let item_of w =
-  if w = "e" then IBodyEnd else if w = "x" then IBad
+  if w = "e" then IBodyEnd else if w = "x" then IBad false else if w = "X" then IBad true
   else if String.length w = 3 && w.[0] = 'h' then IHead (w.[1] = '1', w.[2] = '1')
   else failwith ("bad item " ^ w)
 let num s = n_of_int (int_of_string s)
@@ -26,6 +27,8 @@ let ev_of w =
   | 'D' -> EData (if rest = "-" then [] else List.map item_of (String.split_on_char ',' rest))
   | 'S' -> EStart
   | 'F' -> EDone (outcome_of rest)
+  | 'R' -> EReparse
+  | 'W' -> EWake
   | 'T' -> ETick (num rest)
   | 'P' -> EPeerClose
   | _ -> failwith ("bad event " ^ w)
